@@ -8,8 +8,8 @@ import Rscp.Gen.Leaves
 namespace Rscp.Tie.Crypt
 
 /-- source of `rscp_createAESKey` is unchanged -/
-theorem shape_rscp_createAESKey : Rscp.Gen.Shape.rscp_createAESKey = "02d5daa10ff4f156ce37c04bfff42524" := rfl
+theorem shape_rscp_createAESKey : Rscp.Gen.Shape.rscp_createAESKey = "2e879a0fcecf60b4e080a42df2a5d00b" := rfl
 /-- source of `rscp_newIV` is unchanged -/
-theorem shape_rscp_newIV : Rscp.Gen.Shape.rscp_newIV = "ececed804a884743df647e2aaab0031f" := rfl
+theorem shape_rscp_newIV : Rscp.Gen.Shape.rscp_newIV = "490acf9f3263b32a940d304d02e68b55" := rfl
 
 end Rscp.Tie.Crypt
